@@ -116,6 +116,59 @@ class _NoOps(ast.NodeTransformer):
         return node
 
 
+class _DictLiteral(ast.NodeTransformer):
+    """dict(a=1, b=2)  ->  {'a': 1, 'b': 2}"""
+
+    def visit_Call(self, node):
+        self.generic_visit(node)
+        if isinstance(node.func, ast.Name) and node.func.id == 'dict' and not node.args and \
+                node.keywords and all(k.arg is not None for k in node.keywords):
+            return ast.Dict(keys=[ast.Constant(value=k.arg) for k in node.keywords],
+                            values=[k.value for k in node.keywords])
+        return node
+
+
+class _HoistArg(ast.NodeTransformer):
+    """f(g(x), y)  ->  _sa_arg = g(x); f(_sa_arg, y)   (first argument of statement-level
+    calls only: evaluation order is preserved when the callee expression has no call)."""
+
+    def _callee_pure(self, f):
+        while isinstance(f, ast.Attribute):
+            f = f.value
+        return isinstance(f, ast.Name)
+
+    def _block(self, stmts):
+        out = []
+        for s in stmts:
+            call = None
+            if isinstance(s, ast.Expr) and isinstance(s.value, ast.Call):
+                call = s.value
+            elif isinstance(s, ast.Assign) and isinstance(s.value, ast.Call) and \
+                    len(s.targets) == 1 and isinstance(s.targets[0], ast.Name):
+                call = s.value
+            if call is not None and call.args and self._callee_pure(call.func) and \
+                    isinstance(call.args[0], (ast.BinOp, ast.Call, ast.Subscript)) and \
+                    not any(isinstance(x, (ast.Starred, ast.Lambda, ast.NamedExpr, ast.Yield,
+                                           ast.GeneratorExp))
+                            for x in ast.walk(call.args[0])):
+                self.k = getattr(self, 'k', 0) + 1
+                nm = '_sa_arg{}'.format(self.k)
+                out.append(ast.Assign(targets=[ast.Name(id=nm, ctx=ast.Store())],
+                                      value=call.args[0], lineno=0))
+                call.args[0] = ast.Name(id=nm, ctx=ast.Load())
+            out.append(s)
+        return out
+
+    def generic_visit(self, node):
+        super().generic_visit(node)
+        for fld in ('body', 'orelse', 'finalbody'):
+            v = getattr(node, fld, None)
+            if isinstance(v, list) and v and isinstance(v[0], ast.stmt) and \
+                    not isinstance(node, (ast.Lambda, ast.Module, ast.ClassDef)):
+                setattr(node, fld, self._block(v))
+        return node
+
+
 class _SwapIfElse(ast.NodeTransformer):
     def visit_If(self, node):
         self.generic_visit(node)
@@ -178,6 +231,10 @@ def neutral_variants(text):
         out.append(('return-temporaries', ast.unparse(t) + '\n'))
         t = ast.fix_missing_locations(_SwapIfElse().visit(ast.parse(text)))
         out.append(('swap-if-else', ast.unparse(t) + '\n'))
+        t = ast.fix_missing_locations(_DictLiteral().visit(ast.parse(text)))
+        out.append(('dict-literal', ast.unparse(t) + '\n'))
+        t = ast.fix_missing_locations(_HoistArg().visit(ast.parse(text)))
+        out.append(('hoist-first-argument', ast.unparse(t) + '\n'))
     except Exception as e:   # pragma: no cover
         out.append(('rewrite-error', None))
     return out
